@@ -1,6 +1,7 @@
 package props
 
 import (
+	"bytes"
 	"fmt"
 	"mc/report"
 	"os"
@@ -86,8 +87,21 @@ func libEncodePDU(s *refper.Schema, n *refper.Node) (b []byte, err error, panick
 	if perr := recoverErr(func() { b, err = ngap.Encoder(pdu) }); perr != nil {
 		return nil, perr, true
 	}
+	ngapSecondEncode = ""
+	if err == nil {
+		// the same Go value once more: encoding must not change its argument
+		var b2 []byte
+		var err2 error
+		if perr := recoverErr(func() { b2, err2 = ngap.Encoder(pdu) }); perr != nil || err2 != nil || !bytes.Equal(b, b2) {
+			ngapSecondEncode = fmt.Sprintf("first encode %x, second encode of the same value %x (%v %v)", b, b2, perr, err2)
+		}
+	}
 	return
 }
+
+// ngapSecondEncode: set by libEncodePDU / libEncodeTransfer when encoding the same Go value a second time gave
+// something else (single-threaded shard processes: a package variable is enough).
+var ngapSecondEncode string
 
 func libDecodePDU(s *refper.Schema, b []byte) (n *refper.Node, err error, panicked bool) {
 	var pdu *ngapType.NGAPPDU
@@ -109,6 +123,14 @@ func libEncodeTransfer(s *refper.Schema, typ string, n *refper.Node) (b []byte, 
 	}
 	if perr := recoverErr(func() { b, err = aper.MarshalWithParams(v.Elem().Interface(), "valueExt") }); perr != nil {
 		return nil, perr, true
+	}
+	ngapSecondEncode = ""
+	if err == nil {
+		var b2 []byte
+		var err2 error
+		if perr := recoverErr(func() { b2, err2 = aper.MarshalWithParams(v.Elem().Interface(), "valueExt") }); perr != nil || err2 != nil || !bytes.Equal(b, b2) {
+			ngapSecondEncode = fmt.Sprintf("first encode %x, second encode of the same value %x (%v %v)", b, b2, perr, err2)
+		}
 	}
 	return
 }
